@@ -10,7 +10,7 @@ from .calls import Pack
 from .loops import IterDesc
 
 FORBIDDEN = {'eval', 'exec', 'compile', 'open', '__import__', 'getattr', 'setattr', 'vars', 'globals',
-             'locals', 'input', 'print', 'dir', 'object', 'type', 'hasattr', 'id'}
+             'locals', 'input', 'print', 'dir', 'object', 'type', 'id'}
 
 DEC_NAMES = ('decimal.Decimal', 'Decimal')
 
@@ -18,7 +18,7 @@ DEC_NAMES = ('decimal.Decimal', 'Decimal')
 STR_PURE = {
     'capitalize': ('str', (0, 0)), 'casefold': ('str', (0, 0)), 'center': ('str', (1, 2)), 'expandtabs': ('str', (0, 1)),
     'ljust': ('str', (1, 2)), 'rjust': ('str', (1, 2)), 'swapcase': ('str', (0, 0)), 'title': ('str', (0, 0)), 'zfill': ('str', (1, 1)),
-    'removeprefix': ('str', (1, 1)), 'removesuffix': ('str', (1, 1)),
+    'removeprefix': ('str', (1, 1)), 'removesuffix': ('str', (1, 1)), 'format': ('str', (0, 99)),
     'isalnum': ('bool', (0, 0)), 'isalpha': ('bool', (0, 0)), 'isascii': ('bool', (0, 0)), 'isdecimal': ('bool', (0, 0)),
     'isdigit': ('bool', (0, 0)), 'isidentifier': ('bool', (0, 0)), 'islower': ('bool', (0, 0)), 'isnumeric': ('bool', (0, 0)),
     'isprintable': ('bool', (0, 0)), 'isspace': ('bool', (0, 0)), 'istitle': ('bool', (0, 0)), 'isupper': ('bool', (0, 0)),
@@ -26,6 +26,17 @@ STR_PURE = {
     'splitlines': ('strlist', (0, 1)), 'rsplit': ('strlist', (0, 2)),
     'partition': ('strtuple3', (1, 1)), 'rpartition': ('strtuple3', (1, 1)),
 }
+
+
+# pure methods of decimal.Decimal by result kind (all work in the context: a Decimal result has at most 28 digits)
+DEC_PURE = {'quantize': 'dec', 'to_integral_value': 'dec', 'to_integral': 'dec', 'to_integral_exact': 'dec', 'normalize': 'dec',
+            'sqrt': 'dec', 'ln': 'dec', 'log10': 'dec', 'exp': 'dec', 'scaleb': 'dec', 'fma': 'dec', 'remainder_near': 'dec',
+            'max': 'dec', 'min': 'dec', 'next_plus': 'dec', 'next_minus': 'dec',
+            'is_nan': 'bool', 'is_finite': 'bool', 'is_infinite': 'bool', 'is_zero': 'bool', 'is_signed': 'bool', 'is_normal': 'bool',
+            'adjusted': 'int'}
+MATH_FLOAT = {'sqrt', 'log', 'log2', 'log10', 'exp', 'sin', 'cos', 'tan', 'asin', 'acos', 'atan', 'atan2', 'pow', 'fabs', 'hypot',
+              'degrees', 'radians', 'fmod', 'copysign'}
+MATH_BOOL = {'isnan', 'isinf', 'isfinite', 'isclose'}
 
 
 def F_CAP():
@@ -132,6 +143,16 @@ class Stubs:
         m = getattr(self, 'x_' + name.replace('.', '_'), None)
         if m is not None:
             return m(ex, args, kwargs)
+        if name.startswith('math.') and not any(isinstance(a, Pack) for a in args) and name[5:] in MATH_FLOAT | MATH_BOOL:
+            vals = [ex.to_val(a) for a in args]
+            for v in vals:
+                if not ex.branch(L.is_numeric(v), 'math-num'):
+                    ex.raise_('TypeError', 'must be real number')
+            ex.event('stub', name, tuple(vals), {}, None)
+            if name[5:] in MATH_BOOL:
+                return L.BoolV(ex.fresh_bool(name[5:]))
+            ex.may_raise(['ValueError', 'OverflowError'], 'math domain / range error')
+            return L.FloatV(ex.fresh_int('flt_' + name[5:]))
         if name.startswith('operator.') and not any(isinstance(a, Pack) for a in args):
             r = self.operator_call(ex, name[9:], args, kwargs)
             if r is not None:
@@ -150,6 +171,11 @@ class Stubs:
         if isinstance(v, z3.ExprRef) or isinstance(v, (St, Closure, BoundMethod)):
             return L.BoolV(self.isinstance_formula(ex, v, t))
         raise Unsupported('isinstance of %r' % (v,))
+
+    def b_hasattr(self, ex, args, kwargs):
+        # a pure test: no attribute value is handed out
+        v = ex.to_val(args[0])
+        return L.BoolV(L.UF('py_hasattr', Val, Val, B)(v, ex.to_val(args[1])))
 
     def b_type(self, ex, args, kwargs):
         if len(args) == 1 and isinstance(args[0], z3.ExprRef) and L.is_true(L.simp(L.is_None(args[0]))):
@@ -604,8 +630,11 @@ class Stubs:
         if len(ints) == 2:
             return IterDesc('range', start=ints[0], stop=ints[1], step=z3.IntVal(1))
         st = L.simp(ints[2])
-        if not z3.is_int_value(st) or st.as_long() <= 0:
-            raise Unsupported('range with non-constant or non-positive step')
+        if not z3.is_int_value(st) or st.as_long() == 0:
+            raise Unsupported('range with a non-constant step')
+        if st.as_long() < 0:
+            # counting down: the mirror image of an upward range (start, start+step, ... while > stop)
+            return IterDesc('range', start=ints[0], stop=ints[1], step=st, down=True)
         return IterDesc('range', start=ints[0], stop=ints[1], step=st)
 
     # -- external functions ---------------------------------------------------------------
@@ -975,6 +1004,19 @@ class Stubs:
         if ex.branch(L.is_Obj(recv), 'm-obj'):
             return self.unknown_call(ex, 'method %s of an object of unknown class' % name, [recv] + [ex.to_val(a) for a in args])
         if ex.branch(L.is_Dec(recv), 'm-dec'):
+            if name in DEC_PURE:
+                kind = DEC_PURE[name]
+                ex.event('stub', 'Decimal.' + name, (recv,) + tuple(args), {}, None)
+                if kind == 'dec':
+                    # context arithmetic: at most 28 significant digits, or a signal (A-DEC-CTX)
+                    ex.may_raise(['ArithmeticError'], 'decimal signal')
+                    d = ex.fresh_int('dec_' + name)
+                    ex.assume(z3.And(L.dec_digits(d) >= 1, L.dec_digits(d) <= 28))
+                    return L.DecV(d)
+                if kind == 'bool':
+                    return L.BoolV(L.UF('dec_' + name, I, B)(Val.d(recv)))
+                if kind == 'int':
+                    return L.IntV(L.UF('dec_' + name, I, I)(Val.d(recv)))
             return self.unmodelled_method(ex, recv, 'Decimal', name, args)
         ex.raise_('AttributeError', 'no attribute %s' % name)
 
@@ -1193,6 +1235,39 @@ class Stubs:
         if len(args) > 1:
             return ex.to_val(args[1])
         ex.raise_('KeyError', 'pop of missing key')
+
+    def dict_setdefault(self, ex, recv, r, args, kwargs):
+        if not args:
+            ex.raise_('TypeError', 'setdefault expected at least 1 argument')
+        key = ex.to_val(args[0])
+        default = ex.to_val(args[1]) if len(args) > 1 else L.NoneV
+        if not ex.branch(self.model.hashable(key), 'hashable'):
+            ex.raise_('TypeError', 'unhashable')
+        if ex.branch(ex.heap.dhas(r, key), 'dict-has'):
+            ex.assume(ex.heap.dlen(r) >= 1)
+            x = ex.known(ex.heap.dval(r, key))
+            ex.assume_elem(x)
+            return x
+        self.model.setitem(ex, recv, key, default)
+        return default
+
+    def dict_update(self, ex, recv, r, args, kwargs):
+        h = ex.heap
+        n0 = h.dlen(r)
+        add = z3.IntVal(len(kwargs))
+        for a in args:
+            a = ex.to_val(a)
+            if not ex.branch(L.is_Dict(a), 'update-from-dict'):
+                ex.may_raise(['TypeError', 'ValueError'], 'update from a non-mapping')
+                ex.event('unmodelled_call', 'dict.update from a non-dict')
+                return self.unknown_call(ex, 'dict.update from a non-dict', [a])
+            add = add + h.dlen(Val.dref(a))
+        n1 = ex.fresh_int('len')
+        ex.assume(z3.And(n1 >= n0, n1 <= n0 + add))
+        val = z3.Const(ex.fresh_name('dval'), z3.ArraySort(Val, Val))
+        ex.note_array_elems(val, 'from2')
+        ex.dict_write('update', r, n1, z3.Const(ex.fresh_name('dhas'), z3.ArraySort(Val, B)), val, None)
+        return L.NoneV
 
     def dict_copy(self, ex, recv, r, args, kwargs):
         h = ex.heap
